@@ -470,7 +470,6 @@ def exactly_nilpotent(D):
     n = D.shape[0]
     if not np.all(np.isfinite(D)):
         return False
-    # structural shortcut: an acyclic support is nilpotent
     A = [[Fraction(float(x)) for x in row] for row in D.tolist()]
     P = A
     k = 1
@@ -618,7 +617,7 @@ def _judge(c):
             return _viol("sr:shape-format-dtype", "sr request changes shape/format/dtype", c, [expected_shape(c), ef, str(dt)],
                          [list(W.shape), fmt_of(W), str(W.dtype)])
         WD = dense(W).astype(float)
-        rt = 2e-5 if dt == np.float32 else 1e-6      # radius
+        rt = 1e-4 if dt == np.float32 else 1e-6      # radius
         mt = 1e-6 if dt == np.float32 else 1e-9      # entrywise proportionality
         if init == "fast_spectral_initialization":
             # FSI sets the bounds of the uniform law: W = |a| * (same-seed draw on [-1,1]), a positive multiple
@@ -656,6 +655,12 @@ def _judge(c):
             return _viol("sr:not-positive-multiple", "%s(sr=%r) is not a positive multiple of the same-seed unscaled draw" % (init, sr),
                          c, None, cst)
         rho = float(max(abs(np.linalg.eigvals(WD))))
+        # conditioning of the dominant eigenvalue: a defective eigenvalue of multiplicity k moves by ulp^(1/k) under a
+        # one-ulp perturbation of the entries, for any eigenvalue solver; do not charge that to the library
+        ulp = 6e-8 if dt == np.float32 else 1.2e-16
+        pert = D * (1 + ulp * np.random.RandomState(0).choice([-1.0, 1.0], size=D.shape))
+        sens = abs(float(max(abs(np.linalg.eigvals(pert)))) - rho0) / rho0
+        rt = max(rt, 50 * sens)
         if abs(rho - sr) > rt * sr:
             return _viol("sr:radius-mismatch", "%s(sr=%r) has spectral radius %r" % (init, sr, rho), c, sr, rho)
     # ---- input scaling
